@@ -694,3 +694,35 @@ def container_shapes():
                                  wrap=('{', '}'))),
     }
     return d
+
+
+# ---------------------------------------------------------------------------------------------------------------------
+# multi-byte variant of any operand source: every identifier gets a non-ASCII character, every plain string too
+
+import io
+import keyword as _kw
+import tokenize as _tok
+
+_KEEP = set(_kw.kwlist) | {'_', 'match', 'case', 'type'}
+
+
+def mb_variant(src):
+    """the same source with every identifier `x` renamed `xñ` (consistently) and `ü` appended inside every plain string
+    literal, so that byte offsets differ from character offsets everywhere; None if nothing changes or tokenizing fails"""
+    try:
+        toks = list(_tok.generate_tokens(io.StringIO(src).readline))
+    except Exception:
+        return None
+    lines = src.split('\n')
+    edits = []
+    for t in toks:
+        if t.type == _tok.NAME and t.string not in _KEEP and t.string.isascii():
+            edits.append((t.end[0] - 1, t.end[1], 'ñ'))
+        elif t.type == _tok.STRING and t.string[0] in '\'"' and not t.string.startswith(('"""', "'''")) and t.start[0] == t.end[0]:
+            edits.append((t.end[0] - 1, t.end[1] - 1, 'ü'))
+    if not edits:
+        return None
+    for ln, col, ins in sorted(edits, reverse=True):
+        if ln < len(lines):
+            lines[ln] = lines[ln][:col] + ins + lines[ln][col:]
+    return '\n'.join(lines)
